@@ -2,6 +2,7 @@
 
 from __future__ import annotations
 
+from ..model import AnalysisError
 from ..report import Cx, Ob, describe, obligation
 from ..rules import where
 from ..summ import describe_path
@@ -439,3 +440,87 @@ def x12(cx: Cx, ob: Ob) -> None:
     from ..rules import package_lints
 
     package_lints(cx, ob, {'api.py', 'discovery.py'})
+
+
+def _dnf(t, pol: bool) -> list[list]:
+    """Disjunctive normal form of a guard (term, polarity): list of conjunctions of (atom, polarity)."""
+    o = op(t)
+    if o in ("not",):
+        return _dnf(t[1], not pol)
+    if o == "truth":
+        return _dnf(t[1], pol)
+    if (o == "and" and pol) or (o == "or" and not pol):
+        out = [[]]
+        for x in t[1]:
+            nxt = []
+            for d in _dnf(x, pol):
+                for acc in out:
+                    nxt.append(acc + d)
+            out = nxt
+            if len(out) > 64:
+                raise AnalysisError("guard too large for DNF")
+        return out
+    if (o == "or" and pol) or (o == "and" and not pol):
+        out = []
+        for x in t[1]:
+            out += _dnf(x, pol)
+        return out
+    return [[(t, pol)]]
+
+
+@obligation("C19-D7", "every URI that is not already known to the supplied converter is learned from, except GitHub issue links: each way of skipping a URI requires either converter.is_uri(uri) or uri.startswith('https://github.com')", floor=1)
+def d7(cx: Cx, ob: Ob) -> None:
+    fn, s = helper(cx, ob)
+    conv = ("param", "converter")
+    loops = [ev for ev, ctx in s.walk() if ev.kind == "loop" and not ctx.loops]
+    if not loops:
+        ob.undecide("no loop over the URIs")
+        return
+    lp = loops[0]
+    uri = lp.a
+    n = 0
+    for p in lp.body:
+        if p.out != ("continue",):
+            continue
+        if any(ev.kind == "loop" for ev in p.events):
+            continue  # a `continue` of the inner delimiter loop
+        guards = [(ev.a, ev.b) for ev in p.events if ev.kind == "guard"]
+        if not guards:
+            ob.violate(fn.qualname, where(fn, lp.line), "every URI is skipped unconditionally", detail="skip-all")
+            continue
+        n += 1
+        # the path is taken when ALL its guards hold: conjunction of the DNFs
+        conj = [[]]
+        for g, pol in guards:
+            nxt = []
+            for d in _dnf(g, pol):
+                for acc in conj:
+                    nxt.append(acc + d)
+            conj = nxt
+        ob.site(f"{where(fn, p.events[-1].line if p.events else lp.line)} {fn.qualname}", f"skip path with {len(conj)} way(s)")
+        for way in conj:
+            known = any(pol is True and op(a) == "call" and op(a[1]) == "attr" and a[1][1] == conv and a[1][2] == "is_uri" for a, pol in way) or any(op(a) == "cmp" and is_const(a[3], None) and op(a[2]) == "call" and op(a[2][1]) == "attr" and a[2][1][1] == conv and ((a[1] in ("is not", "!=")) == pol) for a, pol in way)
+            github = any(pol is True and op(a) == "call" and op(a[1]) == "attr" and a[1][1] == uri and a[1][2] == "startswith" and a[2] and ((is_const(a[2][0]) and "github.com" in str(a[2][0][1])) or op(a[2][0]) == "gconst") for a, pol in way)
+            # only pure FILTERS on the URI are judged here; "no delimiter splits this URI" (a helper
+            # returning None, a failed partition) is the normal end of the inner search, not a filter
+            def filterish(a) -> bool:
+                for x in subterms(a):
+                    if op(x) in ("func", "closure") or (op(x) == "param" and x[1] == "delimiters") or (op(x) == "gconst" and "DELIM" in str(x[2]).upper()):
+                        return False
+                    if op(x) == "call" and op(x[1]) == "attr" and x[1][2] in ("rsplit", "split", "rpartition", "partition", "find", "rfind", "isalnum"):
+                        return False
+                return True
+
+            if not all(filterish(a) for a, _ in way):
+                continue
+            if not (known or github):
+                ob.violate(
+                    fn.qualname,
+                    where(fn, p.events[-1].line if p.events else lp.line),
+                    f"a URI is skipped when merely `{' and '.join(('' if pol else 'not ') + show(a)[:40] for a, pol in way)}`: neither known to the supplied converter nor a GitHub link - such URIs (and their prefixes) silently drop out of the result and the numbering of the rest shifts",
+                    witness="`A and B or C` parses as `(A and B) or C`: 'http://example.org/pull/123' is skipped",
+                    detail="skip-too-wide",
+                )
+    if n == 0:
+        ob.note("no skip path in the URI loop")
+        ob.site(f"{fn.where} {fn.qualname}", "no skip paths")
